@@ -211,8 +211,20 @@ roundtrip!(c19_t_roundtrip_n6, 6, 10);
 // ---------------------------------------------------------------------------------------------
 // from_decoded: checksum is computed over the encoded payload
 // ---------------------------------------------------------------------------------------------
-fn from_decoded_body(attrs: Vec<AddrAttrProperty>, max: usize) {
-    let root: [u8; 28] = kani::any();
+const CRC_LIB: crc::Crc<u32> = crc::Crc::<u32>::new(&crc::CRC_32_ISO_HDLC);
+
+/// `sym` = number of leading root bytes that are symbolic (rest zero); `bitwise` = compare against the
+/// harness' bitwise CRC (independent oracle) instead of the `crc` crate run over the stored payload
+fn from_decoded_body(attrs: Vec<AddrAttrProperty>, max: usize, sym: usize, bitwise: bool) {
+    let any_root: [u8; 28] = kani::any();
+    let mut root = [0u8; 28];
+    let mut i = 0;
+    while i < 28 {
+        if i < sym {
+            root[i] = any_root[i];
+        }
+        i += 1;
+    }
     let t: u8 = kani::any();
     kani::assume(t < 24);
     let addrtype = match t {
@@ -224,22 +236,28 @@ fn from_decoded_body(attrs: Vec<AddrAttrProperty>, max: usize) {
     let pl = AddressPayload { root: Hash::<28>::new(root), attributes: attrs.into(), addrtype };
     let a = ByronAddress::from_decoded(pl);
     let bytes: &Vec<u8> = &a.payload.0;
-    assert!(bytes.len() <= max, "harness bound on the encoded payload");
-    assert!(a.crc == crc32_slice(bytes, max), "from_decoded: crc field == CRC32(encoded payload)");
-    // the payload field is the CBOR of the AddressPayload: array(3), bytes(28) root ...
+    assert!(bytes.len() == max, "length of the encoded payload");
+    if bitwise {
+        assert!(a.crc == crc32_slice(bytes, max), "from_decoded: crc field == CRC32(encoded payload) [bitwise oracle]");
+    } else {
+        assert!(a.crc == CRC_LIB.checksum(bytes), "from_decoded: crc field == CRC32(encoded payload) [crc crate oracle]");
+    }
+    // the payload field is the CBOR of the AddressPayload: array(3), bytes(28) root, attributes map, type
     assert!(bytes[0] == 0x83 && bytes[1] == 0x58 && bytes[2] == 28, "payload starts array(3) bytes(28)");
     assert!(bytes[3] == root[0] && bytes[30] == root[27], "root hash is embedded");
+    assert!(bytes[max - 1] == t, "address type is the last item");
     kani::cover!(t == 2, "redeem type");
+    kani::cover!(root[0] == 0xff, "symbolic root byte");
     core::mem::forget(a);
 }
 
-/// bound: AddressPayload with symbolic 28-byte root, addrtype 0..23 symbolic, no attributes (encoded payload 33 bytes), unwind 36
+/// bound: AddressPayload with symbolic 28-byte root, addrtype 0..23 symbolic, no attributes (encoded payload 33 bytes); oracle = `crc` crate (trusted, tied to the bitwise reference by c19_q_crc_lib_vs_bitwise) over the stored payload bytes, unwind 36
 #[kani::proof]
 #[kani::unwind(36)]
 #[kani::stub(std::fmt::format, crate::stubs::fmt_format_stub)]
 #[kani::stub(pallas_codec::minicbor::encode::Error::write, crate::stubs::mcb_write_err_stub)]
 fn c19_q_from_decoded_noattr() {
-    from_decoded_body(Vec::new(), 33);
+    from_decoded_body(Vec::new(), 33, 28, false);
 }
 
 /// bound: as above with exactly one attribute AddrDistr::BootstrapEraDistribution (encoded payload 36 bytes), unwind 39
@@ -250,7 +268,29 @@ fn c19_q_from_decoded_noattr() {
 fn c19_t_from_decoded_one_attr() {
     let mut v = Vec::with_capacity(1);
     v.push(AddrAttrProperty::AddrDistr(AddrDistr::BootstrapEraDistribution));
-    from_decoded_body(v, 36);
+    from_decoded_body(v, 36, 28, false);
+}
+
+/// bound: no attributes, only the first 2 root bytes and the addrtype symbolic (other root bytes zero); independent bitwise CRC oracle, unwind 36
+#[kani::proof]
+#[kani::unwind(36)]
+#[kani::stub(std::fmt::format, crate::stubs::fmt_format_stub)]
+#[kani::stub(pallas_codec::minicbor::encode::Error::write, crate::stubs::mcb_write_err_stub)]
+fn c19_q_from_decoded_bitwise_sym2() {
+    from_decoded_body(Vec::new(), 33, 2, true);
+}
+
+/// ties the trusted `crc` crate (CRC_32_ISO_HDLC, what from_decoded calls) to the bitwise reference used by the parse harnesses
+/// bound: 4 symbolic bytes, symbolic length 0..=4, unwind 10
+#[kani::proof]
+#[kani::unwind(10)]
+fn c19_q_crc_lib_vs_bitwise() {
+    let p: [u8; 4] = kani::any();
+    let n: usize = kani::any();
+    kani::assume(n <= 4);
+    assert!(CRC_LIB.checksum(&p[..n]) == crc32_ref(&p, n), "crc crate == bitwise CRC-32/ISO-HDLC");
+    kani::cover!(n == 4, "full length");
+    kani::cover!(n == 0, "empty");
 }
 
 /// vacuity twin: must come back FAILED
